@@ -205,6 +205,108 @@ func c19SendSites(repo string, dirs []string) ([]string, error) {
 	return out, nil
 }
 
+// c19SendsAndCalls renders channel sends and calls of a statement list in source order.
+func c19SendsAndCalls(list []ast.Stmt) []string {
+	var out []string
+	for _, st := range list {
+		ast.Inspect(st, func(n ast.Node) bool {
+			switch x := n.(type) {
+			case *ast.SendStmt:
+				out = append(out, types.ExprString(x.Chan)+" <- "+types.ExprString(x.Value))
+			case *ast.CallExpr:
+				out = append(out, types.ExprString(x))
+			}
+			return true
+		})
+	}
+	return out
+}
+
+// c19TaskReceivers lists, for every function of pool.go, each select case / statement that receives
+// from `p.tasks`, followed by the sends and calls of that case's body.
+func c19TaskReceivers(f *ast.File) []string {
+	var out []string
+	isRecv := func(e ast.Expr) bool {
+		u, ok := e.(*ast.UnaryExpr)
+		return ok && u.Op == token.ARROW && types.ExprString(u.X) == "p.tasks"
+	}
+	for _, d := range f.Decls {
+		fd, ok := d.(*ast.FuncDecl)
+		if !ok || fd.Body == nil {
+			continue
+		}
+		ast.Inspect(fd.Body, func(n ast.Node) bool {
+			cc, ok := n.(*ast.CommClause)
+			if !ok || cc.Comm == nil {
+				return true
+			}
+			recv := false
+			switch x := cc.Comm.(type) {
+			case *ast.AssignStmt:
+				recv = len(x.Rhs) == 1 && isRecv(x.Rhs[0])
+			case *ast.ExprStmt:
+				recv = isRecv(x.X)
+			}
+			if recv {
+				out = append(out, fd.Name.Name+": "+strings.Join(c19SendsAndCalls(cc.Body), "; "))
+			}
+			return true
+		})
+	}
+	// a receive outside a select
+	for _, d := range f.Decls {
+		fd, ok := d.(*ast.FuncDecl)
+		if !ok || fd.Body == nil {
+			continue
+		}
+		n := 0
+		ast.Inspect(fd.Body, func(nd ast.Node) bool {
+			if _, ok := nd.(*ast.CommClause); ok {
+				return false
+			}
+			if e, ok := nd.(ast.Expr); ok && isRecv(e) {
+				n++
+			}
+			return true
+		})
+		if n > 0 {
+			out = append(out, fmt.Sprintf("%s: %d receive(s) outside a select", fd.Name.Name, n))
+		}
+	}
+	return out
+}
+
+// c19PooledClosureIsExecFnOnly: in baseStage.Execute the first argument of concurrent.NewTask is a
+// func literal whose body is the single statement `execFn()`, and `execFn` is the closure defined
+// at the top of Execute.
+func c19PooledClosureIsExecFnOnly(fd *ast.FuncDecl) bool {
+	if fd == nil {
+		return false
+	}
+	found, good := 0, 0
+	ast.Inspect(fd.Body, func(n ast.Node) bool {
+		ce, ok := n.(*ast.CallExpr)
+		if !ok || types.ExprString(ce.Fun) != "concurrent.NewTask" || len(ce.Args) == 0 {
+			return true
+		}
+		found++
+		lit, ok := ce.Args[0].(*ast.FuncLit)
+		if !ok || len(lit.Body.List) != 1 {
+			return true
+		}
+		es, ok := lit.Body.List[0].(*ast.ExprStmt)
+		if !ok {
+			return true
+		}
+		c, ok := es.X.(*ast.CallExpr)
+		if ok && types.ExprString(c.Fun) == "execFn" && len(c.Args) == 0 {
+			good++
+		}
+		return true
+	})
+	return found == 1 && good == 1
+}
+
 func c19Steps(body *ast.BlockStmt) []string { return c19StepsKeep(body, c19Keep) }
 
 func c19StepsKeep(body *ast.BlockStmt, keep *regexp.Regexp) []string {
@@ -522,6 +624,32 @@ func init() {
 		}
 		sb.WriteString("/-- `workerPool.Submit` calls the task's handler when it rejects the task (stopped pool / cancelled context) -/\n")
 		sb.WriteString(fmt.Sprintf("def submitRejectNotifies : Bool := %v\n\n", notifies))
+		// round 12: the pool's queue (Model/C19PoolQueue.lean)
+		capv, okc := ConstInts(plf)["tasksCapacity"]
+		if !okc {
+			return "", fmt.Errorf("constant tasksCapacity not found in internal/concurrent/pool.go")
+		}
+		sb.WriteString("/-- capacity of the pool's `tasks` channel (`tasksCapacity`) -/\n")
+		sb.WriteString("def poolTasksCapacity : Nat := " + LeanInt(capv) + "\n\n")
+		sb.WriteString("/-- every function of pool.go that receives from `p.tasks`, with what it does with the received task -/\n")
+		sb.WriteString("def poolTaskReceivers : List String := " + LeanStrList(c19TaskReceivers(plf)) + "\n\n")
+		var wp []string
+		if fd := FindFunc(plf, "worker", "process"); fd != nil {
+			wp = c19SendsAndCalls(fd.Body.List)
+		}
+		sb.WriteString("def workerProcessSteps : List String := " + LeanStrList(wp) + "\n\n")
+		var we []string
+		if fd := FindFunc(plf, "worker", "execute"); fd != nil {
+			we = c19SendsAndCalls(fd.Body.List)
+		}
+		sb.WriteString("def workerExecuteSteps : List String := " + LeanStrList(we) + "\n\n")
+		var tx []string
+		if fd := FindFunc(plf, "Task", "Exec"); fd != nil {
+			tx = c19SendsAndCalls(fd.Body.List)
+		}
+		sb.WriteString("def taskExecSteps : List String := " + LeanStrList(tx) + "\n\n")
+		sb.WriteString("/-- the closure `baseStage.Execute` hands to the pool is exactly `func() { execFn() }`: it runs the stage whatever the context says -/\n")
+		sb.WriteString(fmt.Sprintf("def pooledClosureIsExecFnOnly : Bool := %v\n\n", c19PooledClosureIsExecFnOnly(FindFunc(bf, "baseStage", "Execute"))))
 		_, lf, err := ParseFile(repo, "query/context/leaf_execute_context.go")
 		if err != nil {
 			return "", err
